@@ -43,22 +43,34 @@ InclRoot(p, d) ==                                            \* htree.VerifyIncl
 
 -----------------------------------------------------------------------------
 (* the honest world: trusted tx T, proven tx P *)
-Ops  == {"get0", "getAt", "txbyid", "getRef", "set", "sget0", "sgetRef", "vrowT", "vrowF"}
+Ops  == {"get0", "getAt", "txbyid", "getRef", "set", "sget0", "sgetRef", "vrowT", "vrowF", "vrow2T", "vrow2F"}
 \* s...: the streaming variants (pkg/client/streams.go); vrowT / vrowF: VerifyRow (pkg/client/sql.go) of a true / a false claim
 RefOps == {"getRef", "sgetRef"}
-RowOps == {"vrowT", "vrowF"}
+RowOps == {"vrowT", "vrowF", "vrow2T", "vrow2F"}     \* vrow2*: a table whose composite primary key (b, a) is not in declaration order, with columns of different types
+Row2Ops == {"vrow2T", "vrow2F"}
 Rels == {"newer", "same", "older"}                           \* proven tx is newer than / the same as / older than the trusted one
 RelsOf(op) == IF op = "set" THEN {"newer"} ELSE Rels          \* a write is always newer than the trusted state
-POf(op) == CASE op \in RefOps -> 6 [] op = "set" -> 12 [] op \in RowOps -> 10 [] OTHER -> 3
+POf(op) == CASE op \in RefOps -> 6 [] op = "set" -> 16 [] op \in Row2Ops -> 13 [] op \in RowOps -> 10 [] OTHER -> 3
 SwapP(op) == IF op \in RefOps THEN 7 ELSE POf(op)          \* the tx proven by the honest answer to ANOTHER request (key k2 / reference r2)
 TOf(op, rel) == IF op = "set" THEN 2 ELSE CASE rel = "newer" -> POf(op) - 1 [] rel = "same" -> POf(op) [] rel = "older" -> POf(op) + 1
 
 \* the SQL row of tx 10: table t (id 1 in database 1), columns id = 1 (primary key), a = 2, b = 3; the row (1, 100, 5)
 HonRow == [c \in {1, 2, 3} |-> CASE c = 1 -> 1 [] c = 2 -> 100 [] c = 3 -> 5]
-RowKey(db, tbl, pkval) == <<"row", db, tbl, pkval>>      \* sql.MapKey(prefix, RowPrefix, dbID, tableID, PKIndexID, pk values); the pk column id only selects the encoding
+\* the SQL row of tx 13: table t2 (id 2), columns a = 1 (VARCHAR), b = 2, c = 3 (INTEGER), PRIMARY KEY (b, a); the row ('x', 2, 7)
+HonRow2 == [c \in {1, 2, 3} |-> CASE c = 1 -> "x" [] c = 2 -> 2 [] c = 3 -> 7]
+RowOf(op) == IF op \in Row2Ops THEN HonRow2 ELSE HonRow
+TblOf(op) == IF op \in Row2Ops THEN 2 ELSE 1
+ColType(op, c) == IF op \in Row2Ops /\ c = 1 THEN "S" ELSE "I"
+PkIdsOf(op) == IF op \in Row2Ops THEN <<2, 1>> ELSE <<1>>            \* ids of the primary-key columns, in key order
+PkValsOf(op) == IF op \in Row2Ops THEN <<2, "x">> ELSE <<1>>          \* what the caller passes, in key order
+ClaimCol(op) == IF op \in Row2Ops THEN "c" ELSE "a"                  \* the column the caller makes a claim about
+FalseVal(op) == IF op \in Row2Ops THEN 2 ELSE 5                      \* a value another column of the row holds
+OtherColId(op) == IF op \in Row2Ops THEN 2 ELSE 3                    \* ... the id of that column
+\* sql.MapKey(prefix, RowPrefix, dbID, tableID, PKIndexID, pk values): every pk value is encoded with the type of the column id found in PKIDs
+RowKey(op, db, tbl, pkIds) == <<"row", db, tbl, [i \in 1..Len(PkValsOf(op)) |-> <<ColType(op, pkIds[i]), PkValsOf(op)[i]>>]>>
 \* the entries of the proven transaction
 Entries(op) ==
-  CASE op \in RowOps -> <<[key |-> RowKey(1, 1, 1), md |-> "md0", hv |-> HV(HonRow)]>>
+  CASE op \in RowOps -> <<[key |-> RowKey(op, 1, TblOf(op), PkIdsOf(op)), md |-> "md0", hv |-> HV(RowOf(op))]>>
     [] op \in RefOps -> <<[key |-> "r1", md |-> "md0", hv |-> HV(RefVal("k1", 0))]>>
     [] op = "set"    -> <<[key |-> "ks", md |-> "md0", hv |-> HV(<<"v", "new">>)]>>
     [] OTHER         -> <<[key |-> "k1", md |-> "md0", hv |-> HV(<<"v", 3>>)], [key |-> "k2", md |-> "md0", hv |-> HV(<<"w", 3>>)]>>
@@ -82,7 +94,9 @@ HonResp(op, rel, swapped) ==
    etx |-> IF ref THEN 3 ELSE P,
    isRef |-> ref, rkey |-> IF swapped THEN "r2" ELSE "r1", rtx |-> P, rmd |-> "md0", rat |-> 0,
    \* schema.VerifiableSQLEntry: the raw row and the catalog data the server sends along (nothing proves the latter)
-   srow |-> HonRow, stx |-> P, dbId |-> 1, tblId |-> 1, pkCol |-> 1, colOf |-> [n \in {"id", "a", "b"} |-> CASE n = "id" -> 1 [] n = "a" -> 2 [] n = "b" -> 3],
+   srow |-> RowOf(op), stx |-> P, dbId |-> 1, tblId |-> TblOf(op), pkIds |-> PkIdsOf(op),
+   colOf |-> IF op \in Row2Ops THEN [n \in {"a", "b", "c"} |-> CASE n = "a" -> 1 [] n = "b" -> 2 [] n = "c" -> 3]
+             ELSE [n \in {"id", "a", "b"} |-> CASE n = "id" -> 1 [] n = "a" -> 2 [] n = "b" -> 3],
    \* schema.VerifiableTx
    txhdr |-> Hon(op, P), te |-> es,
    dpS |-> Hon(op, lo), dpT |-> Hon(op, hi), body |-> <<"B", HAlh(Hon(op, lo)), HAlh(Hon(op, hi))>>,
@@ -124,7 +138,7 @@ GetLeaf(ver, reqKey, r) ==
   ELSE Dig(ver, reqKey, r.emd, HV(r.eval))
 
 \* the leaf digest VerifyRow computes: the row key is built from the ids found in the response and the caller's pk value
-RowLeaf(ver, r) == Dig(ver, RowKey(r.dbId, r.tblId, 1), "md0", HV(r.srow))
+RowLeaf(op, ver, r) == Dig(ver, RowKey(op, r.dbId, r.tblId, r.pkIds), "md0", HV(r.srow))
 ReqKey(op) == IF op \in RefOps THEN "r1" ELSE "k1"
 \* the streaming client encodes a reference under the key found in the response (ReferencedBy.Key)
 LeafKey(op, r) == IF op = "sgetRef" THEN r.rkey ELSE ReqKey(op)
@@ -143,12 +157,13 @@ Altered(op, rel, S) ==
                       !.rtx  = IF "ref.tx" \in S THEN @ + 5 ELSE @,
                       !.rmd  = IF "ref.md" \in S THEN "mdX" ELSE @,
                       !.rat  = IF "ref.atTx" \in S THEN @ + 2 ELSE @,
-                      !.srow = IF "sql.val" \in S THEN [@ EXCEPT ![2] = 5] ELSE @,          \* forged row: a = 5
+                      !.srow = IF "sql.val" \in S THEN [@ EXCEPT ![r.colOf[ClaimCol(op)]] = FalseVal(op)] ELSE @,   \* forged row: the claimed column holds the false value
                       !.stx  = IF "sql.tx" \in S THEN @ + 5 ELSE @,
                       !.dbId = IF "cat.db" \in S THEN @ + 1 ELSE @,
                       !.tblId = IF "cat.table" \in S THEN @ + 1 ELSE @,
-                      !.pkCol = IF "cat.pkcol" \in S THEN 2 ELSE @,
-                      !.colOf = IF "cat.colmap" \in S THEN [@ EXCEPT !["a"] = 3] ELSE @,
+                      \* another column id in PKIDs: an INTEGER one for t (same encoding), the swapped order for t2 (other types)
+                      !.pkIds = IF "cat.pkcol" \in S THEN (IF op \in Row2Ops THEN <<1, 2>> ELSE <<2>>) ELSE @,
+                      !.colOf = IF "cat.colmap" \in S THEN [@ EXCEPT ![ClaimCol(op)] = OtherColId(op)] ELSE @,
                       !.incl.leaf = IF "incl.leaf" \in S THEN 2 ELSE @,
                       !.incl.sib = IF "incl.sib" \in S THEN <<"bogus", "sib", "sib">> ELSE @,
                       !.body = IF "body" \in S THEN <<"bogus", "body">> ELSE @]
@@ -159,7 +174,7 @@ Altered(op, rel, S) ==
       txh0 == AlterHdr(r.txhdr, "txhdr", S)
       \* the entries hash a forger would recompute: the one the client's own computation yields for the forged content
       ehC == IF op \in {"txbyid", "set"} THEN EHof(Digs(txh0.ver, te1))
-             ELSE IF op \in RowOps THEN InclRoot(e1.incl, RowLeaf(txh0.ver, e1))
+             ELSE IF op \in RowOps THEN InclRoot(e1.incl, RowLeaf(op, txh0.ver, e1))
              ELSE InclRoot(e1.incl, GetLeaf(txh0.ver, LeafKey(op, e1), e1))
       txh == IF "txhdr.ehC" \in S THEN [txh0 EXCEPT !.eh = ehC] ELSE txh0
       pr0 == AlterHdr(IF provenIsTgt THEN r.dpT ELSE r.dpS, "dpP", S)
@@ -211,7 +226,7 @@ ClientStreamGet(reqKey, T, trustedAlh, r) ==
       state |-> <<tgtID, tgtAlh>>]
 
 (* pkg/client/sql.go VerifyRow(row = {a: claim}, table t, pk 1) *)
-ClientVerifyRow(claim, T, trustedAlh, r) ==
+ClientVerifyRow(op, claim, T, trustedAlh, r) ==
   LET ver == r.txhdr.ver
       vTx == r.stx
       tgtBranch == T <= vTx
@@ -220,8 +235,8 @@ ClientVerifyRow(claim, T, trustedAlh, r) ==
       tgtID == IF tgtBranch THEN vTx ELSE T
       srcAlh == IF tgtBranch THEN trustedAlh ELSE HAlh(r.dpS)
       tgtAlh == IF tgtBranch THEN HAlh(r.dpT) ELSE trustedAlh
-  IN [ok |-> /\ r.srow[r.colOf["a"]] = claim               \* verifyRowAgainst(row, decodeRow(value), ColIdsByName)
-             /\ InclRoot(r.incl, RowLeaf(ver, r)) = eh
+  IN [ok |-> /\ r.srow[r.colOf[ClaimCol(op)]] = claim      \* verifyRowAgainst(row, decodeRow(value), ColIdsByName)
+             /\ InclRoot(r.incl, RowLeaf(op, ver, r)) = eh
              /\ VerifyDualAbs(r, srcID, tgtID, srcAlh, tgtAlh),
       ret |-> <<claim>>,                                      \* what the caller now believes: column a of row 1 holds `claim`
       state |-> <<tgtID, tgtAlh>>]
@@ -266,8 +281,10 @@ Client(op, rel, r) ==
     [] op = "sgetRef" -> ClientStreamGet("r1", T, trusted, r)
     [] op = "txbyid" -> ClientTxByID(P, T, trusted, r)
     [] op = "set" -> ClientSet(T, trusted, r)
-    [] op = "vrowT" -> ClientVerifyRow(100, T, trusted, r)
-    [] op = "vrowF" -> ClientVerifyRow(5, T, trusted, r)
+    [] op = "vrowT" -> ClientVerifyRow(op, 100, T, trusted, r)
+    [] op = "vrowF" -> ClientVerifyRow(op, 5, T, trusted, r)
+    [] op = "vrow2T" -> ClientVerifyRow(op, 7, T, trusted, r)
+    [] op = "vrow2F" -> ClientVerifyRow(op, 2, T, trusted, r)
 
 \* what the history holds
 Truth(op, rel) ==
@@ -275,7 +292,7 @@ Truth(op, rel) ==
   [ret |-> CASE op = "txbyid" -> <<Hon(op, P), Entries(op)>>
              [] op = "set" -> <<Hon(op, P)>>
              [] op \in RefOps -> <<"k1", <<"v", 3>>, "md0", 3, "r1", P, "md0", 0>>
-             [] op \in RowOps -> <<HonRow[2]>>
+             [] op \in RowOps -> <<RowOf(op)[IF op \in Row2Ops THEN 3 ELSE 2]>>
              [] OTHER -> <<"k1", <<"v", 3>>, "md0", P>>,
    state |-> <<hi, HAlh(Hon(op, hi))>>]
 
@@ -285,7 +302,7 @@ Case(op, rel, S) ==
    accept |-> v.ok, harmful |-> v.ret # t.ret \/ v.state # t.state]
 AllCases == UNION {{Case(op, rel, S) : rel \in RelsOf(op), S \in MutSets(op)} : op \in Ops}
 
-Complete == \A c \in AllCases : c.muts = <<>> => IF c.op = "vrowF" THEN ~c.accept ELSE c.accept /\ ~c.harmful
+Complete == \A c \in AllCases : c.muts = <<>> => IF c.op \in {"vrowF", "vrow2F"} THEN ~c.accept ELSE c.accept /\ ~c.harmful
 Sound    == \A c \in AllCases : c.accept => ~c.harmful
 Unsound  == {c \in AllCases : c.accept /\ c.harmful}
 
